@@ -54,6 +54,12 @@ func (ex *Exec) ghostSets(st *State, fr *Frame, c *ssa.CallCommon, when string) 
 		f = f.Parent()
 		sp = ex.Specs.Funcs[specName(f)]
 	}
+	// likewise a named function without a contract that is inlined: its calls belong to the function being verified
+	if sp == nil {
+		if top := ex.topFrame(st); top != nil && top.Spec != nil && top != fr {
+			sp = top.Spec
+		}
+	}
 	if sp == nil || len(sp.GhostSets) == 0 {
 		return nil
 	}
